@@ -24,21 +24,23 @@ IsMat(M, r, c) == Len(M) = r /\ \A i \in 1..r : IsVec(M[i], c)
 AllVecs(n) == [1..n -> {0, 1}]
 AllMats(r, c) == [1..r -> AllVecs(c)]
 
-ZeroVec(n) == [j \in 1..n |-> 0]
+ZeroVec(n) == TLCEval([j \in 1..n |-> 0])
 IsZeroVec(v) == \A j \in 1..Len(v) : v[j] = 0
-VecAdd(u, v) == [j \in 1..Len(u) |-> (u[j] + v[j]) % 2]
+\* TLC builds [x \in S |-> e] lazily (every application re-evaluates e): rows and matrices are forced with TLCEval,
+\* otherwise chains of row additions cost exponential time
+VecAdd(u, v) == TLCEval([j \in 1..Len(u) |-> (u[j] + v[j]) % 2])
 Dot(u, v) == Cardinality({j \in 1..Len(u) : u[j] = 1 /\ v[j] = 1}) % 2
 
 \* the single action of the abstract machine, and the swap (1-based here)
 RowAdd(M, r0, r1) == [M EXCEPT ![r1] = VecAdd(M[r0], M[r1])]
 RowSwap(M, r0, r1) == [M EXCEPT ![r0] = M[r1], ![r1] = M[r0]]
 
-Mul(A, B) == [i \in 1..Len(A) |-> [j \in 1..NCols(B) |->
-                 Cardinality({k \in 1..Len(B) : A[i][k] = 1 /\ B[k][j] = 1}) % 2]]
-Transpose(M) == [j \in 1..NCols(M) |-> [i \in 1..Len(M) |-> M[i][j]]]
+Mul(A, B) == TLCEval([i \in 1..Len(A) |-> TLCEval([j \in 1..NCols(B) |->
+                 Cardinality({k \in 1..Len(B) : A[i][k] = 1 /\ B[k][j] = 1}) % 2])])
+Transpose(M) == TLCEval([j \in 1..NCols(M) |-> TLCEval([i \in 1..Len(M) |-> M[i][j]])])
 VStack(A, B) == A \o B
-HStack(A, B) == [i \in 1..Len(A) |-> A[i] \o B[i]]
-Identity(n) == [i \in 1..n |-> [j \in 1..n |-> IF i = j THEN 1 ELSE 0]]
+HStack(A, B) == TLCEval([i \in 1..Len(A) |-> A[i] \o B[i]])
+Identity(n) == TLCEval([i \in 1..n |-> TLCEval([j \in 1..n |-> IF i = j THEN 1 ELSE 0])])
 
 \* the span of a list of vectors of length n (all F2-combinations); 2^Len(vs) candidates
 SpanOf(vs, n) == {[j \in 1..n |-> Cardinality({i \in S : vs[i][j] = 1}) % 2] : S \in SUBSET (1..Len(vs))}
@@ -54,8 +56,8 @@ RankElimRec(M, col, done) ==
   IF col > NCols(M) \/ done >= Len(M) THEN done
   ELSE LET cand == {r \in (done + 1)..Len(M) : M[r][col] = 1} IN
        IF cand = {} THEN RankElimRec(M, col + 1, done)
-       ELSE LET M1 == RowSwap(M, MinOf(cand), done + 1)
-                M2 == [r \in 1..Len(M) |-> IF r > done + 1 /\ M1[r][col] = 1 THEN VecAdd(M1[r], M1[done + 1]) ELSE M1[r]]
+       ELSE LET M1 == TLCEval(RowSwap(M, MinOf(cand), done + 1))
+                M2 == TLCEval([r \in 1..Len(M) |-> IF r > done + 1 /\ M1[r][col] = 1 THEN VecAdd(M1[r], M1[done + 1]) ELSE M1[r]])
             IN RankElimRec(TLCEval(M2), col + 1, done + 1)
 RankElim(M) == RankElimRec(M, 1, 0)
 
@@ -213,10 +215,10 @@ NullspaceImpl(M) ==
   IF g.rank = n THEN <<>>
   ELSE LET pcs == NsPivots(g.m, g.rank, n, 0, <<>>)
            free == NsFree(pcs, 1, n, 0, <<>>)
-       IN [t \in 1..Len(free) |-> [j \in 1..n |->
+       IN [t \in 1..Len(free) |-> TLCEval([j \in 1..n |->
              IF j - 1 = free[t] THEN 1
              ELSE IF \E row \in 1..Len(pcs) : pcs[row] = j - 1 /\ free[t] > pcs[row] /\ g.m[row][free[t] + 1] = 1 THEN 1
-             ELSE 0]]
+             ELSE 0])]
 
 -----------------------------------------------------------------------------
 (* (c) property C17.  `small` selects the declarative definitions (RowSpace, 2^rows combinations);
